@@ -232,6 +232,14 @@ def register(reg):
 
     reg.add(Contract(key="ViewRepresentation.replace_leaves", cls="ViewRepresentation", params={"self": NODE, "replacement_map": RMAP}, assumed=True, apply=rl_virtual))
 
+    def node_unchanged(c, cls):
+        """every modelled field of the node (and of its base class) is as it was at the call"""
+        eqs = []
+        for cn in (cls, "ViewRepresentation"):
+            for fname in c.eng.classes[cn].fields:
+                eqs.append(veq(c.field(c.self, fname), c.old_field(c.self, fname)))
+        return z3.And(*eqs)
+
     def rebuild(cls, bname, stored, nsrc=1):
         def ensures(c):
             if c.raised:
@@ -244,7 +252,7 @@ def register(reg):
                 vals.append(VScalar(RL(eng, st, VScalar(srcs.arr[1], NODE), c.replacement_map), NODE))
             vals += stored(c)
             want = ufun(eng, "build_" + bname, zargs(eng, st, vals))
-            return [("rebuilt-from-the-replaced-sources-and-every-stored-argument", c.result.z == want)]
+            return [("rebuilt-from-the-replaced-sources-and-every-stored-argument", c.result.z == want), ("the-node-itself-is-not-modified", node_unchanged(c, cls))]
 
         def requires(c):
             srcs = c.field(c.self, "sources")
@@ -299,7 +307,7 @@ def register(reg):
         as_list = ufun(eng, "build_extend_parsed_", zargs(eng, st, [new0, c.field(c.self, "ops"), pb, c.field(c.self, "order_by"), c.field(c.self, "reverse")]))
         as_one = ufun(eng, "build_extend_parsed_", zargs(eng, st, [new0, c.field(c.self, "ops"), VPy(1), c.field(c.self, "order_by"), c.field(c.self, "reverse")]))
         want = z3.If(z3.And(win, pb.n < 1), as_one, as_list)
-        return [("rebuilt-from-the-replaced-source-and-every-stored-argument (partition_by=1 restored)", c.result.z == want)]
+        return [("rebuilt-from-the-replaced-source-and-every-stored-argument (partition_by=1 restored)", c.result.z == want), ("the-node-itself-is-not-modified", node_unchanged(c, "ExtendNode"))]
 
     def ext_call_apply(eng, st, argmap, node):
         vals = [argmap["self"]] + [argmap.get(p, VNone()) for p in ("parsed_ops", "partition_by", "order_by", "reverse")]
